@@ -484,6 +484,11 @@ func Run(sc Scenario, cfg Config) *Result {
 				var ms runtime.MemStats
 				runtime.ReadMemStats(&ms)
 				if ms.HeapAlloc > cfg.MemLimit {
+					// most of it may be garbage (the collector runs rarely here): collect, then look again
+					runtime.GC()
+					runtime.ReadMemStats(&ms)
+				}
+				if ms.HeapAlloc > cfg.MemLimit {
 					res.Exhaustive = false
 					res.CapHit = fmt.Sprintf("memory: heap %d MiB > limit %d MiB at depth %d (%d/%d transitions of that level done)", ms.HeapAlloc>>20, cfg.MemLimit>>20, depth+1, end, len(all))
 					stop = true
